@@ -230,10 +230,11 @@ def check(prop, tier, res, replay=None):
             if len(samples) < 2 and not replay and "trace_file" in r and r.get("backend"):
                 samples.append({"backend": r["backend"], "profile": r["profile"], "trace": extract_trace(r["trace_file"], 0, 5)})
         # additional case-stream families of this property (rate limiter, size limits, ...)
-        for pl in EXTRA_PLANS.get(prop, []):
-            import pure
-            for sh in range(pl["shards"](tier)):
-                rr = pure.run_cases(pl["sub"], pl["args"](tier, sd, sh), pl["mode"], work, f"{pl['family']}-{sh}")
+        import pure
+        xjobs = [(pl, sh) for pl in EXTRA_PLANS.get(prop, []) for sh in range(pl["shards"](tier))]
+        xres = pmap(lambda j: pure.run_cases(j[0]["sub"], j[0]["args"](tier, sd, j[1]), j[0]["mode"], work, f"{j[0]['family']}-{j[1]}"), xjobs)
+        for (pl, sh), rr in zip(xjobs, xres):
+            if True:
                 if "error" in rr:
                     res.violation(f"pipeline:{pl['family']}", "correspondence pipeline failed: " + rr["error"][:600], {"kind": "pipeline", "theorem_or_tie": pl["family"], "log": rr["error"]}, found=False)
                     continue
